@@ -38,9 +38,12 @@ mut("c04_delete_no_load", "src/blob/core.rs", """        if on_disk {
         }""", """        if on_disk && false {
             self.load_index().await?;
         }""", ["C04", "C02"])
-mut("c04_close_no_push", "src/storage/core.rs", """                ablob.fsyncdata().await?;
-                safe.blobs.write().await.push(ablob).await;""", """                ablob.fsyncdata().await?;
-                if ablob.records_count() > 0 { safe.blobs.write().await.push(ablob).await; }""", ["C04", "C15"], "closing an empty active blob forgets it")
+mut("c04_close_no_push", "src/storage/core.rs", """            if let Some(ablob) = safe.active_blob.take() {
+                blobs.push((*ablob).into_inner()).await;
+            }""", """            if let Some(ablob) = safe.active_blob.take() {
+                let ablob = (*ablob).into_inner();
+                if ablob.records_count() > 0 { blobs.push(ablob).await; }
+            }""", ["C04", "C15"], "closing an empty active blob forgets it")
 # ---- C05
 mut("c05_no_audit_load_data", "src/blob/entry.rs", "        self.header.data_checksum_audit(&data)?;\n        Ok(data)", "        Ok(data)", ["C05"])
 mut("c05_no_validate_load", "src/blob/entry.rs", "        Record::new(self.header, meta, data_buf)\n            .validate()\n", "        Ok(Record::new(self.header, meta, data_buf))\n", ["C05"], "checksum verification removed from the read path")
